@@ -199,6 +199,16 @@ def _impl_real(case):
         except ValueError:
             j = None
         objs.append((traj, tr, j, TrajectoryMetrics(traj)))
+    # the first trajectory analysed once more with the labels of the sites exchanged and a further, never visited site: the same jump table,
+    # other answers by label and by shape -- two live analysis objects that happen to hold equal tables must not share memoised results
+    traj0 = objs[0][0]
+    sites_b = synth.make_sites(m, site_frac + [[0.5, 0.5, 0.5]], labels=['B', 'A', 'B', 'A', 'C'])
+    tr_b = traj0.transitions_between_sites(sites_b, 'Li', site_radius=1.0)
+    try:
+        j_b = Jumps(tr_b)
+    except ValueError:
+        j_b = None
+    objs.append((traj0, tr_b, j_b, TrajectoryMetrics(traj0)))
     plan = []
     for n, (traj, tr, j, mt) in enumerate(objs):
         plan += [(n, tr, 'matrix', (), {}), (n, tr, 'states_next', (), {}), (n, tr, 'states_prev', (), {})]
